@@ -250,10 +250,11 @@ func h2OffsetsNonNeg(c *Ctx, fns []*ssa.Function) (bool, string) {
 }
 
 // runHpackBounds (C08.B8): MOSN's HPACK decoder stays inside the received bytes and inside its tables.
-//   (a) the linear bounds engine on the decoder's own functions (readVarInt, readString, parse*, huffman entry points);
-//   (b) every conversion of a peer-controlled unsigned 64-bit integer to a signed or narrower type is preceded by a guard
-//       that bounds it by a value of the target type: without it an index of 2^63+k turns negative, slips through signed
-//       comparisons and indexes far outside the table (panic in the connection's reader).
+//
+//	(a) the linear bounds engine on the decoder's own functions (readVarInt, readString, parse*, huffman entry points);
+//	(b) every conversion of a peer-controlled unsigned 64-bit integer to a signed or narrower type is preceded by a guard
+//	    that bounds it by a value of the target type: without it an index of 2^63+k turns negative, slips through signed
+//	    comparisons and indexes far outside the table (panic in the connection's reader).
 func runHpackBounds(c *Ctx, rule string, withB1 bool) {
 	pkg := "pkg/module/http2/hpack"
 	fns := c.PkgFuncs(pkg)
@@ -506,7 +507,9 @@ func c07H2Dispatch(c *Ctx, rule string) {
 			}
 		}
 		// one stream-level context per frame (the xprotocol clause, C07-8): Get() between two Decode calls, and Decode gets it
-		get := callsIn(fn, false, func(cc *ssa.CallCommon) bool { return methodName(cc) == "Get" && len(cc.Args) > 0 && strings.HasSuffix(typeName(cc.Args[0].Type()), "ContextManager") })
+		get := callsIn(fn, false, func(cc *ssa.CallCommon) bool {
+			return methodName(cc) == "Get" && len(cc.Args) > 0 && strings.HasSuffix(typeName(cc.Args[0].Type()), "ContextManager")
+		})
 		isGet := func(in ssa.Instruction) bool {
 			for _, gc := range get {
 				if gc.Instr == in {
